@@ -36,6 +36,7 @@ class Profile:
         self.count = "m"             # call classes counted for NQV_PLAN indices
         self.trace_extra = ""        # further shim classes to log (e.g. "tr" for stat and read)
         self.keep_log = False        # keep the shim's complete event log in memory after the home is removed
+        self.p_spawner_eof = 0.0     # probability per quiescent point that a spawner "dies" (EOF on its report pipe)
         self.__dict__.update(kw)
 
 
@@ -105,6 +106,7 @@ class History:
         self.idle_adv = 0
         self.last_ncmd = 0
         self.stuck = False
+        self.spawner_closed = None
         self.log = []
 
     # effective limits for oracles
@@ -196,8 +198,11 @@ class History:
                         sim.kill_daemons(who=("clean",))
                         self.after_crash()
                         continue
-                    if self.term_pending and os.WIFEXITED(st) and os.WEXITSTATUS(st) == 0:
+                    if (self.term_pending or self.spawner_closed) and os.WIFEXITED(st) and os.WEXITSTATUS(st) == 0:
                         self.term_pending = False
+                        if self.spawner_closed:
+                            self.res.counters.inc("restarts_after_lost_spawner")
+                        self.spawner_closed = False
                         sim.kill_daemons(who=("clean",))
                         if self.finished:
                             break
@@ -236,6 +241,22 @@ class History:
                     continue
                 if p.raw_garbage and rng.random() < p.raw_garbage:
                     self.raw_garbage()
+                    continue
+                if self.spawner_closed:
+                    # the daemon is dying ("lost spawn connection"): answer what the surviving spawner still owes
+                    alive = [k for k in sorted(sim.outstanding) if k[0] != self.spawner_closed]
+                    if alive:
+                        k = rng.choice(alive)
+                        sim.report(sim.outstanding[k], self.choose_report(sim.outstanding[k]))
+                    else:
+                        self.res.violate("C03/no-exit-after-lost-spawner", "a spawner is gone, nothing else is outstanding, the daemon keeps sleeping", self.witness())
+                        break
+                    continue
+                if p.p_spawner_eof and rng.random() < p.p_spawner_eof:
+                    self.spawner_closed = rng.choice("lr")
+                    sim.close_spawner(self.spawner_closed)
+                    for k in [k for k in sim.outstanding if k[0] == self.spawner_closed]:
+                        del sim.outstanding[k]          # those deliveries will never be answered
                     continue
                 if sim.outstanding and rng.random() > p.hold_reports:
                     k = rng.choice(sorted(sim.outstanding))
